@@ -38,3 +38,4 @@ func vLiveGoroutines() int
 func vBlockUntil(p *bool)
 func vPreemptions() int
 func vStop(why string)
+func vYieldAll()
